@@ -5,7 +5,6 @@ use serde::{Deserialize, Serialize};
 use serde_json::json;
 
 use super::common::*;
-use super::c07::show_samples;
 use super::PropDef;
 use crate::cli::run_ska;
 use crate::engine::{gen_stage_show, key_of, pass, Ctx, Outcome, Stage, Tier};
@@ -49,17 +48,6 @@ fn del_indices(c: &Case, n: usize) -> Vec<usize> {
     d
 }
 
-/// one name per line, in the layouts a text editor may leave: with or without a final newline,
-/// Windows line endings, a trailing blank line, trailing white space
-pub fn names_file_text(names: &[String], variant: usize) -> String {
-    match variant % 5 {
-        0 => names.join("\n") + "\n",
-        1 => names.join("\n"),
-        2 => names.join("\r\n") + "\r\n",
-        3 => names.join("\n") + "\n\n",
-        _ => names.iter().map(|n| format!("{n} \t")).collect::<Vec<_>>().join("\n") + "\n",
-    }
-}
 
 fn check(c: &Case, ctx: &Ctx) -> Outcome {
     let (_anc, samples) = gen::materialise_set(&c.set);
